@@ -418,7 +418,7 @@ def replay(ck, path):
 
 def main():
     ck = Check("C11", "other")
-    lean = ck.lean_stage(["VelaVerif.Props.C11", "VelaVerif.Props.C11Writer"])
+    lean = ck.lean_stage(["VelaVerif.Props.C11", "VelaVerif.Props.C11Writer", "VelaVerif.Props.C11Roundtrip"])
     common.setup_repo_path()
     pipeline.load_vela()
     if ck.replay_arg:
@@ -486,6 +486,9 @@ def main():
     w_owners = [o for o in owners if "wdesc" in o]
     w_answers = ck.model([x for o in w_owners for x in ("wwrite " + o["wdesc"] + " " + o["wtree"], "wspec " + o["wdesc"] + " " + o["wtree"])])
     loop_answers = ck.model(["wloop " + o["wdesc"] for o in w_owners])
+    # is the captured graph in the domain of Props/C11Writer.conforms_write (on it the Spec provably accepts the model's file)?
+    for a in ck.model(["wdomain " + o["wdesc"] for o in w_owners]):
+        ck.count("wpipe_domain_" + "_".join(a.split(" ")[:2]))
     for o, a in zip(w_owners, loop_answers):
         ck.count("wpipe_loop_" + ":".join(a.split(" ")[0].split(":")[:2]))
         if (a.startswith("differ") or a.startswith("err:rewrite")) and ck.counters.get("wpipe_loop_reported", 0) < 3:
